@@ -703,19 +703,30 @@ def rule_alignspec(chk, prog, tier):
         acases.append((name, None, AL | PK)); acases.append((name, None, AL)); acases.append((name, None, 0))
     acases.append(('aligned', 8, PK)); acases.append(('aligned', 8, 0))
     acases.append(('unknownattr', None, AL | PK)); acases.append(('__noreturn__', None, 0))
+    # C23 [[prefix::name]] spellings: the prefix is read by parseattr itself (prefix argument 0)
+    for pfx in ('gnu', '__gnu__'):
+        for name in ('packed', '__packed__'):
+            acases.append((pfx + '::' + name, None, AL | PK))
+        for name in ('aligned', '__aligned__'):
+            acases.append((pfx + '::' + name, 8, AL | PK)); acases.append((pfx + '::' + name, None, AL | PK))
+    acases.append(('vendor::packed', None, AL | PK)); acases.append(('::packed', None, AL | PK)); acases.append(('::deprecated', None, AL | PK))
     for name, n, allowed in acases:
+        pfx = None
+        if '::' in name:
+            pfx, name = name.split('::')
         def runner(it):
-            toks = [('TIDENT', name)] + ([('TLPAREN', None), ('ICE', n), ('TRPAREN', None)] if n is not None else []) + [('TRPAREN', None)]
+            toks = ([('TIDENT', pfx), ('TCOLONCOLON', None)] if pfx else []) + [('TIDENT', name)] + ([('TLPAREN', None), ('ICE', n), ('TRPAREN', None)] if n is not None else []) + [('TRBRACK', None)]
             st = cursor(it, toks)
             a = Obj('attr', 'local'); a.f[('kind',)] = 0; a.f[('align',)] = 0
-            ok = it.call(pa, [Ptr(a, ()), allowed, ev(prog, 'PREFIXGNU')])
-            return ok, a.f[('kind',)], a.f[('align',)], st['i']
+            ok = it.call(pa, [Ptr(a, ()), allowed, ev(prog, 'PREFIXGNU') if pfx is None else 0])
+            return ok, a.f[('kind',)], a.f[('align',)], st['i'] - (2 if pfx else 0)
         runs = explore(prog, runner, {}, max_runs=4, on_unsupported='keep')
         if len(runs) != 1 or runs[0].outcome == 'unsupported':
             raise AnalysisBroken('parseattr %s: %s' % (name, runs[0].detail if runs else 'no run'))
         run = runs[0]
         base = name.strip('_')
-        key = 'gnuattr:%s%s,allowed=%d' % (name, '' if n is None else '(%d)' % n, allowed)
+        if pfx is not None and pfx.strip('_') != 'gnu': base = 'ignored'      # unknown vendor prefix or a standard attribute: skipped
+        key = 'gnuattr:%s%s%s,allowed=%d' % (pfx + '::' if pfx is not None else '', name, '' if n is None else '(%d)' % n, allowed)
         ntok = 1 + (3 if n is not None else 0)
         if base == 'aligned':
             badn = n is not None and (n == 0 or n & (n - 1) or n > 2 ** 31 - 1)
